@@ -70,6 +70,7 @@ class Path:
         self.end = None     # "return" | "diverge" | "unreachable" | "resume" | "cut"
         self.ret = None
         self.env = None
+        self.cut_at = None
 
     def calls(self, pred=None):
         return [e for e in self.events if e.kind == "call" and (pred is None or pred(e))]
@@ -239,10 +240,13 @@ class Sym:
         if not pl["p"] and pl["l"] in st.pts:
             tgt, bk = st.pts[pl["l"]]
             key = pkey(tgt)
+            old = st.env.get(key)
+            if old is None:
+                old = self.read_place(st, tgt)
             for k in [k for k in st.env if k == key or (k.startswith(key) and k[len(key):len(key) + 1] in (".", "[", ")"))]:
                 del st.env[k]
             if not any(el["k"] == "deref" for el in tgt["p"]):
-                st.env[key] = ("havoc", uid, key)
+                st.env[key] = ("havoc", uid, key, old)
             else:
                 # pointee of some pointer: bump that pointer's version as well
                 for i, el in enumerate(tgt["p"]):
@@ -284,6 +288,7 @@ class Sym:
                 return
             if v >= self.max_visits:
                 self._finish(st, "cut", None, out)
+                out[-1].cut_at = (fnpath, bb)
                 return
             st.visits[(fnpath, bb)] = v + 1
             st.blocks.append((fnpath, bb))
